@@ -1,7 +1,7 @@
 """C09 - MUB families complete, index-aligned, cost-truthful (structural clauses)."""
 from ..rules_tables import Tables, grammar, T4_edges, T8_header, T9_group_facts
 from ..rules_flow import Flow
-from ..rules_gate import W8_info, K1_loader, W10_requested_file
+from ..rules_gate import W8_info, K1_loader, W10_requested_file, K20_mub_record
 from ..rules_tomo import W9_pairing
 
 
@@ -17,13 +17,15 @@ def run(tree, rep, tier):
     rep.rules["T4"]["floor"] = 2000
     flow = Flow(tree)
     flow.describe(rep)
-    W8_info(rep, flow)
+    W8_info(rep, flow, tables=T)
     W10_requested_file(rep, flow)
     K1_loader(rep, flow, T, tier, mode="exact", api=("mub_circuits.get_mub_circuits",))
     W9_pairing(rep, flow)
+    K20_mub_record(rep, flow, T)
     rep.decided += ["2^n+1 basis lines of n Pauli strings each (T7)", "every basis commuting and independent; the bases partition the 4^n-1 non-identity Paulis (T9, exhaustive arithmetic on the literals)",
                     "header = (sum, max, max depth) of the file's circuits (T8)", "each MUB accessor reads the file named by its own (num_qubits, connectivity), in this order (W10)", "info API wired to the right header fields and 2^n+1 (W8)",
                     "the two returned lists are built pairwise from the same lines and returned unpermuted (W9)",
-                    "the loader turns every documented token of the MUB files into exactly the gate it names (K1, exact mode): the delivered circuits are the files' circuits"]
+                    "the loader turns every documented token of the MUB files into exactly the gate it names (K1, exact mode): the delivered circuits are the files' circuits",
+                    "for each of the 20 advertised configurations get_mubs / get_mub_circuits return, entry by entry and in file order, the bases / circuits of ALL lines of that configuration's file (K20: the accessors evaluated on the shipped files - the clause's whole domain - against an independent parse)"]
     rep.not_decided += ["the i-th circuit maps the i-th basis to +/-Z-type operators (Clifford conjugation; pinned for the shipped files by the passing TestAllMubs tests)",
                         "no MUB circuit costs more than the library's readout circuit for the same basis (needs the classifier's value)"]
